@@ -9,6 +9,9 @@ void scen_callrcu(void);
 void scen_barrier(void);
 void scen_poll(void);
 void scen_defer(void);
+void scen_wfcq(void);
+void scen_stacks(void);
+void scen_lfq(void);
 
 const struct usim_scenario usim_scenarios[] = {
 	{ "gp", "C01", scen_gp },
@@ -17,5 +20,8 @@ const struct usim_scenario usim_scenarios[] = {
 	{ "barrier", "C04", scen_barrier },
 	{ "poll", "C14", scen_poll },
 	{ "defer", "C13", scen_defer },
+	{ "wfcq", "C10", scen_wfcq },
+	{ "stacks", "C11", scen_stacks },
+	{ "lfq", "C12", scen_lfq },
 };
 const int usim_nscenarios = sizeof(usim_scenarios) / sizeof(usim_scenarios[0]);
